@@ -39,7 +39,7 @@ def _type_check_expression(expression, source_file_name, ir, errors):
     elif expression_variety == "boolean_constant":
         _type_check_boolean_constant(expression)
     elif expression_variety == "builtin_reference":
-        _type_check_builtin_reference(expression)
+        _type_check_builtin_reference(expression, source_file_name, errors)
     else:
         assert False, "Unknown expression variety {!r}".format(expression_variety)
 
@@ -500,12 +500,24 @@ def _type_check_boolean_constant(expression):
     _annotate_as_boolean(expression)
 
 
-def _type_check_builtin_reference(expression):
+def _type_check_builtin_reference(expression, source_file_name, errors):
     name = expression.builtin_reference.canonical_name.object_path[0]
     if name == "$is_statically_sized":
         _annotate_as_boolean(expression)
     elif name == "$static_size_in_bits":
         _annotate_as_integer(expression)
+    elif name == "$next":
+        # Every `$next` in the start of a physical field has been replaced by now;
+        # this one is somewhere else (a condition, a virtual field, an attribute...).
+        errors.append(
+            [
+                error.error(
+                    source_file_name,
+                    expression.source_location,
+                    "Keyword `$next` may not be used in this context.",
+                )
+            ]
+        )
     else:
         assert False, "Unknown builtin '{}'.".format(name)
 
